@@ -29,6 +29,8 @@ OPS = {
         code=["cp = H.deep_copy(ll)", "if cp[{a}] != (src[{a} % len(src)] if len(src) else 0): return explain('copy_idx', {a})"],
     ),
     "copy_late": dict(pre=[], code=["cp = H.deep_copy(ll)", "if len(ll) != len(src): return explain('len')", "if list(cp) != src: return explain('copy read after the original was evaluated further')"]),
+    "iter_interleaved": dict(pre=["{a} >= 0"], code=["it_ = iter(ll); got_ = []", "if len(src) > 0: got_.append(next(it_))", "ll[{a}]", "got_ += list(it_)", "if got_ != src: return explain('iterator resumed after the list was advanced by an index', {a})"]),
+    "iter_two": dict(pre=[], code=["i1_ = iter(ll); i2_ = iter(ll); g1_ = []; g2_ = []", "for _k in range(len(src)):", "    g1_.append(next(i1_)); g2_.append(next(i2_))", "if g1_ != src or g2_ != src or list(i1_) != [] : return explain('two iterators in lock step')"]),
     "has_ind": dict(pre=[], code=["if bool(ll.has_ind({a})) != (0 <= {a} < len(src)): return explain('has_ind', {a})"]),
     "listify": dict(pre=[], code=["if ll.listify() != src: return explain('listify')"]),
 }
